@@ -26,6 +26,8 @@ pub enum Expr {
     Lambda(Vec<(String, Ty)>, Ty, Vec<Stmt>),
     /// `mut T e`
     MutNew(Ty, Box<Expr>),
+    /// `mut e` without a declared type: the cell's type is the static type of e (kept here for the reference)
+    MutAuto(Ty, Box<Expr>),
     /// `target op value` with op one of = += -= ...
     Assign(&'static str, Box<Expr>, Box<Expr>),
     Iter(Box<Expr>),
@@ -205,6 +207,7 @@ impl Printer {
             Expr::Lambda(params, ret, body) => (format!("({})", self.function(params, ret, body)), L_PRIMARY),
             // `mut T e` takes the whole following expression: it is kept inside parentheses
             Expr::MutNew(t, x) => (format!("(mut {} {})", t.print(), self.at(x, 0)), L_PRIMARY),
+            Expr::MutAuto(_, x) => (format!("(mut {})", self.at(x, 0)), L_PRIMARY),
             Expr::Assign(op, t, v) => (format!("{} {op} {}", self.at(t, L_ASSIGN + 1), self.at(v, L_ASSIGN)), L_ASSIGN),
             Expr::Iter(a) => (format!("{}~", self.at(a, L_ITER)), L_ITER),
             Expr::Map(it, f) => (format!("{} @ {}", self.at(it, L_ITER), self.at(f, L_PREFIX)), L_ITER),
@@ -351,7 +354,7 @@ pub fn walk_expr(e: &Expr, f: &mut dyn FnMut(&Expr)) {
     f(e);
     match e {
         Expr::Neg(x) | Expr::Not(x) | Expr::Deref(x) | Expr::Iter(x) | Expr::Len(x) | Expr::Post(_, x) | Expr::Sum(_, _, x) | Expr::Tick(_, _, x) => walk_expr(x, f),
-        Expr::TupleAt(x, _) | Expr::Field(x, _) | Expr::TypeFilter(x, _) | Expr::MutNew(_, x) => walk_expr(x, f),
+        Expr::TupleAt(x, _) | Expr::Field(x, _) | Expr::TypeFilter(x, _) | Expr::MutNew(_, x) | Expr::MutAuto(_, x) => walk_expr(x, f),
         Expr::Bin(_, a, b) | Expr::Repeat(a, b) | Expr::Index(a, b) | Expr::Assign(_, a, b) | Expr::Map(a, b) | Expr::Filter(a, b) | Expr::Partition(a, b) => {
             walk_expr(a, f);
             walk_expr(b, f);
